@@ -4,7 +4,7 @@
 import os, re, subprocess, sys
 from concurrent.futures import ThreadPoolExecutor
 V = os.path.dirname(os.path.dirname(os.path.abspath(__file__)))
-PROPS = [f"C{i:02d}" for i in range(1, 20) if i != 16]
+PROPS = [f"C{i:02d}" for i in range(1, 20)]
 def sh(cmd):
     return subprocess.run(cmd, shell=True, capture_output=True, text=True)
 def main():
